@@ -199,6 +199,8 @@
 (declare-fun gs.index (Int Int) Int) (declare-fun gs.lastindex (Int Int) Int)
 (declare-fun gs.hasprefix (Int Int) Bool) (declare-fun gs.hassuffix (Int Int) Bool)
 (declare-fun gs.tolower (Int) Str) (declare-fun gs.toupper (Int) Str) (declare-fun gs.replace (Int Int Int Int) Str)
+(declare-fun gs.trim (Int Int) Str) (declare-fun gs.trimleft (Int Int) Str) (declare-fun gs.trimright (Int Int) Str)
+(declare-fun gs.trimspace (Int) Str) (declare-fun gs.trimspaceleft (Int) Str) (declare-fun gs.trimspaceright (Int) Str)
 (declare-fun atoi.ok (Int) Bool) (declare-fun atoi.val (Int) Int)
 (declare-fun f64.ceil (F64) F64) (declare-fun f64.abs (F64) F64) (declare-fun f64.mod (F64 F64) F64)
 ; C18: a number value is finite (JSON has no NaN or infinity).  c18.ih is the induction hypothesis of the C18 sweep
